@@ -242,10 +242,11 @@ class ReplaceStringTransformation(StringValueTransformation):
                 sigma_string_plain = str(val)
                 replaced = self.re.sub(self.replacement, sigma_string_plain)
                 postprocessed_backslashes = re.sub(r"\\(?![*?])", r"\\\\", replaced)
+                cls = type(val)  # a case-sensitive string stays case-sensitive
                 if val.contains_placeholder():  # Preserve placeholders
-                    return SigmaString(postprocessed_backslashes).insert_placeholders()
+                    return cls(postprocessed_backslashes).insert_placeholders()
                 else:
-                    return SigmaString(postprocessed_backslashes)
+                    return cls(postprocessed_backslashes)
 
 
 @dataclass
@@ -260,10 +261,11 @@ class MapStringTransformation(StringValueTransformation):
         self, field: str | None, val: SigmaString
     ) -> (SigmaType | list[SigmaType]) | None:
         mapped = self.mapping.get(str(val), None)
+        cls = type(val)  # a case-sensitive string stays case-sensitive
         if isinstance(mapped, str):
-            return SigmaString(mapped)
+            return cls(mapped)
         elif isinstance(mapped, list):
-            return [SigmaString(item) for item in mapped]
+            return [cls(item) for item in mapped]
         else:
             return None
 
